@@ -27,6 +27,24 @@ func (r *slowCached) AllocateGauge(name string, tags map[string]string) tally.Ca
 	return r.recCached.AllocateGauge(name, tags)
 }
 
+// gateFlush: a plain reporter whose first Flush blocks until released (a slow backend), so that the next pass overlaps it.
+type gateFlush struct {
+	recReporter
+	n       atomic.Int32
+	entered chan struct{}
+	gate    chan struct{}
+	onFlush func(first bool)
+}
+
+func (r *gateFlush) Flush() {
+	first := r.n.Add(1) == 1
+	r.onFlush(first)
+	if first {
+		close(r.entered)
+		<-r.gate
+	}
+}
+
 func init() {
 	register("c02free", "gauge freshness while the scope's gauge lock is busy, free-running (C02)", func(args []string) {
 		fs := flag.NewFlagSet("c02free", flag.ExitOnError)
@@ -86,7 +104,72 @@ func init() {
 			wg.Wait()
 			tr.Emit(M{"e": "end"})
 		}
+		// Second part: a pass that starts while an earlier pass is still inside the reporter's Flush.  The earlier pass has
+		// made all its deliveries (it is logged as ended when Flush is entered: nothing more can come from it), the gauge is
+		// updated once more, and the next pass - a report pass or the final pass of Close - must leave the last update
+		// as the reporter's most recent value "whatever reports were running concurrently".
+		rounds2 := 12
+		if cm.tier == "thorough" {
+			rounds2 = 120
+		}
+		for round := 0; round < rounds2; round++ {
+			rep := &gateFlush{entered: make(chan struct{}), gate: make(chan struct{})}
+			root, closer := tally.VerifNewRootScope(tally.ScopeOptions{Reporter: rep, OmitCardinalityMetrics: true}, 0, uint(1+round%2))
+			sc := root
+			id := "g"
+			if round%4 >= 2 {
+				sc = root.Tagged(map[string]string{"k": "v"})
+				id = "g{k=v}"
+			}
+			g := sc.Gauge("g")
+			tr.Emit(M{"e": "scn", "mod": 0, "x": rounds + round + 1})
+			cur := "a"
+			rep.onFlush = func(first bool) {
+				for _, c := range rep.take() {
+					if c.Kind == "gauge" && renderID(c.Name, c.Tags) == id {
+						tok := -99
+						for k, b := range gtab {
+							if math.Float64bits(c.F) == b {
+								tok = k
+							}
+						}
+						tr.Emit(M{"e": "dlv", "k": "gauge", "t": cur, "id": id, "v": tok, "own": true})
+					}
+				}
+				tr.Emit(M{"e": "flush", "t": cur, "own": true})
+				if first {
+					tr.Emit(M{"e": "passe", "p": "a#1", "t": "a"})
+				}
+			}
+			upd := func(tok int) {
+				tr.Emit(M{"e": "updcall", "t": "u", "id": id, "v": tok, "inert": false, "o": 1})
+				g.Update(math.Float64frombits(gtab[tok]))
+				tr.Emit(M{"e": "updret", "t": "u", "id": id, "inert": false, "o": 1})
+			}
+			upd(1 + round%4)
+			tr.Emit(M{"e": "passb", "p": "a#1", "t": "a"})
+			adone := make(chan struct{})
+			go func() { defer close(adone); tally.VerifReportOnce(root) }()
+			select {
+			case <-rep.entered:
+			case <-time.After(10 * time.Second):
+				fatal("c02free: the first pass never reached the reporter's Flush")
+			}
+			cur = "u"
+			upd(1 + (round+1)%4)
+			tr.Emit(M{"e": "passb", "p": "u#1", "t": "u"})
+			if round%2 == 0 {
+				tally.VerifReportOnce(root)
+			} else {
+				closer.Close() // the final pass of Close is a report pass like any other
+			}
+			tr.Emit(M{"e": "passe", "p": "u#1", "t": "u"})
+			close(rep.gate)
+			<-adone
+			tr.Emit(M{"e": "end"})
+			evals++
+		}
 		tr.Close()
-		writeMeta(cm.out, M{"cases": rounds, "execs": rounds, "events": tr.N, "evals": evals, "distinct": rounds, "samples": []interface{}{M{"updates_and_passes": per, "rounds": rounds}}})
+		writeMeta(cm.out, M{"cases": rounds + rounds2, "execs": rounds + rounds2, "events": tr.N, "evals": evals, "distinct": rounds + rounds2, "samples": []interface{}{M{"updates_and_passes": per, "rounds": rounds}, M{"passes_overlapping_a_blocked_flush": rounds2}}})
 	})
 }
